@@ -825,8 +825,8 @@ def fam_free(tier, outdir):
     bad, states, trans, nplans, nlines, nstuck = [], 0, 0, 0, 0, 0
     samples = []
     env = dict(os.environ); env.update(vlib.ASAN_ENV)
-    for cap in (4, 8, 32):
-        ps = genfree.plans(SEED, per_cap, cap)
+    for cap in (4, 8, 32, 65536):    # 65536 = the real pipe capacity: payloads up to 1 MiB (16 x capacity)
+        ps = genfree.plans(SEED, per_cap if cap < 65536 else per_cap // 2, cap)
         inp = ("\n".join(json.dumps(p, separators=(",", ":")) for p in ps) + "\n").encode()
         traces = []
         for which, ex in (("plain", exe), ("asan", aexe)):
